@@ -1,3 +1,8 @@
 From HV Require Import Base.Prelude Swamp.Index Swamp.IndexProofs.
-Theorem C07_placeholder : True. Proof. exact placeholder. Qed.
-Print Assumptions C07_placeholder.
+Theorem C07_bounds_correct : forall asc a ft tu,
+  Sorted.Sorted (ordR asc) a ->
+  exists s e, find_bounds asc a ft tu = Some (s, e) /\
+    (0 <= s /\ -1 <= e < Z.of_nat (length a) /\ s <= e + 1 /\
+    filter (win ft tu) a = firstn (Z.to_nat (e + 1 - s)) (skipn (Z.to_nat s) a))%Z.
+Proof. exact bounds_correct. Qed.
+Print Assumptions C07_bounds_correct.
